@@ -91,7 +91,7 @@ func c16RunH1Rewrite(tr *Transport, tc *c01H1Case, attempts int) (wires [][]byte
 // header map left behind.
 func TestVerif_C16_h1rewrite(t *testing.T) {
 	s := c01New(t, "C16", "h1rewrite",
-		"generator of h1wire (methods, URLs, Host override, 0..60 header keys in all spellings, header-order list in most cases: subset / superset / other case / duplicated / full, pseudo-header order list in a quarter, extra headers, Request.Close, proxy form, bufio or plain writer; bodies nil or in-memory = what a transparent re-send can replay), a third of the cases with 1..3 caller headers NEXT TO the bookkeeping keys (\"__\"-prefixed names such as __RequestVerificationToken, proper prefixes / suffixes / infixes / extensions / one-byte changes of __header_order__ and __pseudo_header_order__, in lower, upper and mixed case, half of them listed in the order list); ONE *http.Request is handed to persistConn.writeRequest 2 or 3 times in a row, each time on a new persistConn, as Transport.roundTrip does after a kept-alive connection turned out dead; compared with the model: the rendering of EVERY attempt (byte exact, or request line + line multiset + listed names in wire order + body in header-order mode) and the header map the request is left with; oracle: net/http.ReadRequest sees every caller value once in every attempt, the line multiset of attempt k equals that of attempt 1, listed headers in list order in every attempt, no bookkeeping key, header map after = before up to the in-place sanitising of written values (same keys, order lists identical, values equal after CR/LF -> space and trimming); non-trivial = all attempts written")
+		"generator of h1wire (methods, URLs, Host override, 0..60 header keys in all spellings, header-order list in most cases: subset / superset / other case / duplicated / full, pseudo-header order list in a quarter, extra headers, Request.Close, proxy form, bufio or plain writer; bodies nil or in-memory = what a transparent re-send can replay), a third of the cases with 1..3 caller headers NEXT TO the bookkeeping keys (\"__\"-prefixed names such as __RequestVerificationToken, proper prefixes / suffixes / infixes / extensions / one-byte changes of __header_order__ and __pseudo_header_order__, in lower, upper and mixed case, half of them listed in the order list); ONE *http.Request is handed to persistConn.writeRequest 2 or 3 times in a row, each time on a new persistConn, as Transport.roundTrip does after a kept-alive connection turned out dead; compared with the model: the rendering of EVERY attempt (byte exact, or request line + line multiset + listed names in wire order + body in header-order mode) and the header map the request is left with (rendered by meaning: written values in their sanitised form, so that sanitising in place or on a copy is the same answer); oracle: net/http.ReadRequest sees every caller value once in every attempt, the line multiset of attempt k equals that of attempt 1, listed headers in list order in every attempt, no bookkeeping key, header map after = before up to the in-place sanitising of written values (same keys, order lists identical, values equal after CR/LF -> space and trimming); non-trivial = all attempts written")
 	r := s.Rand()
 	tr := T()
 	n := verifh.N(1500, 25000)
@@ -216,7 +216,7 @@ func TestVerif_C16_h1rewrite(t *testing.T) {
 			human += fmt.Sprintf(" ORACLE: writeRequest changed the description in the request's header map: left with %q", after)
 		}
 		line := c01H1Line("c16rewrite "+strconv.Itoa(attempts), tc, reads[0])
-		s.Case(line, strings.Join(parts, " | ")+" after="+c01Hdr(after), ok, "", allWritten, human)
+		s.Case(line, strings.Join(parts, " | ")+" after="+c01Hdr(verifh.C16DescriptionOf(after)), ok, "", allWritten, human)
 	}
 	s.Need(t, "all-written", "order-mode", "plain-mode", "oracle-applied", "bookkeeping-neighbour-names")
 	s.Finish()
